@@ -16,6 +16,7 @@ def main():
     ap.add_argument("--seeds", default="1")
     ap.add_argument("--only")
     ap.add_argument("--src", default="/tmp/seedout")
+    ap.add_argument("--prefix", default="", help="label for a later round, e.g. r2 -> seeded/Cnn-r2m1")
     a = ap.parse_args()
     src = os.path.join(a.src, a.prop)
     for n in (1, 2, 3, 4, 5):
@@ -26,7 +27,7 @@ def main():
         demo = os.path.join(src, "demo_%s.py" % name)
         if not os.path.exists(patch):
             # maybe already stored under /verif/seeded
-            sd = os.path.join(VERIF, "seeded", "%s-%s" % (a.prop, name))
+            sd = os.path.join(VERIF, "seeded", "%s-%s%s" % (a.prop, a.prefix, name))
             if os.path.exists(os.path.join(sd, "patch.diff")):
                 patch, demo = os.path.join(sd, "patch.diff"), os.path.join(sd, "demo.py")
             else:
@@ -44,12 +45,12 @@ def main():
             and out.get("demo_clean_rc") == 0 and out.get("demo_mutant_rc") not in (0, None)
         det = {c: ("KILLED" if any(x["rc"] == 1 for x in runs) else ("HARNESS" if any(x["rc"] == 2 for x in runs) else "survived"))
                for c, runs in out["checks"].items()}
-        print("%s-%s confirmed=%s tests=%s/%s demo=%s->%s  %s" % (
-            a.prop, name, bool(confirmed), out.get("tests_passed"), out.get("tests_failed"), out.get("demo_clean_rc"),
+        print("%s-%s%s confirmed=%s tests=%s/%s demo=%s->%s  %s" % (
+            a.prop, a.prefix, name, bool(confirmed), out.get("tests_passed"), out.get("tests_failed"), out.get("demo_clean_rc"),
             out.get("demo_mutant_rc"), "  ".join("%s:%s%s" % (c, v, ("(" + ",".join(out["checks"][c][0]["buckets"][:2]) + ")") if v == "KILLED" else "")
                                                      for c, v in det.items())), flush=True)
         if confirmed:
-            sd = os.path.join(VERIF, "seeded", "%s-%s" % (a.prop, name))
+            sd = os.path.join(VERIF, "seeded", "%s-%s%s" % (a.prop, a.prefix, name))
             os.makedirs(sd, exist_ok=True)
             if os.path.abspath(patch) != os.path.join(sd, "patch.diff"):
                 shutil.copy(patch, os.path.join(sd, "patch.diff"))
